@@ -701,7 +701,9 @@ func Walk(n Node, visit func(n Node) bool) {
 				if n.X != nil {
 					stack = append(stack, n.X)
 				}
-				stack = append(stack, n.Name)
+				if n.Name != nil {
+					stack = append(stack, n.Name)
+				}
 			}
 		case *SummarizeOperator:
 			if visit(n) {
@@ -745,6 +747,10 @@ func Walk(n Node, visit func(n Node) bool) {
 				for i := len(n.Vals) - 1; i >= 0; i-- {
 					stack = append(stack, n.Vals[i])
 				}
+				stack = append(stack, n.X)
+			}
+		case *ParenExpr:
+			if visit(n) {
 				stack = append(stack, n.X)
 			}
 		case *BasicLit:
